@@ -18,7 +18,7 @@ MEMBERS = [
     ("ENUM[A,B]", ("ENUM", ["A", "B"])), ("ENUM[ACTIVE,ACTIVATING,DONE]", ("ENUM", ["ACTIVE", "ACTIVATING", "DONE"])), ("ENUM[5,6]", ("ENUM", ["5", "6"])), ("ENUM[INF,WARN,ERR]", ("ENUM", ["INF", "WARN", "ERR"])), ("ENUM[nan,inf,x]", ("ENUM", ["nan", "inf", "x"])), ("CONST[NAN]", ("CONST", "NAN")), ("CONST[Infinity]", ("CONST", "Infinity")),
     ("TYPE[STRING]", ("TYPE", "STRING")), ("TYPE[NUMBER]", ("TYPE", "NUMBER")), ("TYPE[BOOLEAN]", ("TYPE", "BOOLEAN")), ("TYPE[LIST]", ("TYPE", "LIST")),
     ('REGEX["^[a-z]+$"]', ("REGEX", "^[a-z]+$")), ('REGEX["^[A-Z]{2,6}$"]', ("REGEX", "^[A-Z]{2,6}$")),
-    ("RANGE[1,10]", ("RANGE", 1, 10)), ("RANGE[0.5,2.5]", ("RANGE", 0.5, 2.5)), ("RANGE[-5,5]", ("RANGE", -5, 5)),
+    ("RANGE[1,10]", ("RANGE", 1, 10)), ("RANGE[0.5,2.5]", ("RANGE", 0.5, 2.5)), ("RANGE[-5,5]", ("RANGE", -5, 5)), ("RANGE[0,9007199254740992]", ("RANGE", 0, 2**53)),
     ("MAX_LENGTH[3]", ("MAXLEN", 3)), ("MIN_LENGTH[2]", ("MINLEN", 2)), ("MAX_LENGTH[0]", ("MAXLEN", 0)),
     ("DATE", ("DATE",)), ("ISO8601", ("ISO",)), ("DIR", ("DIR",)), ("APPEND_ONLY", ("APPEND",)),
 ]
@@ -29,7 +29,7 @@ def values():
 
     return [
         None, "", "A", "B", "C", "INF", "IN", "NAN", "nan", "inf", "Infinity", "WARN", "ACT", "ACTIV", "ACTIVE", "ACTIVATING", "active", "x", "abc", "abcd", "ab", "AB", "a b", "5", "6", "50", "nan", "inf", "1e3", " 5 ", "2.5", "0x10",
-        0, 1, 5, 10, 11, -5, -6, 2.5, 0.5, 0.49, 2.51, 1e3, float("nan"), float("inf"), True, False,
+        0, 1, 5, 10, 11, -5, -6, 2**53, 2**53 + 1, 10**400, -(10**400), 2.5, 0.5, 0.49, 2.51, 1e3, float("nan"), float("inf"), True, False,
         [], ["a"], ["a", "b"], ["a", "b", "c"], ["a", "b", "c", "d"], {"k": 1},
         "2024-01-15", "2024-02-29", "2023-02-29", "2024-02-30", "2024-13-01", "2024-00-10", "0000-01-01", "2024-1-5", "20240115", "2024-01-15T10:00:00Z", "2024-01-15T10:00:00+02:00",
         "2024-01-15T25:00:00", "2024-01-15\n", "x\x00y", "/tmp/dir", LiteralZoneValue(content="raw"),
@@ -93,7 +93,7 @@ def ref_member(m: tuple, v) -> bool | None:
         if isinstance(v, bool):
             return None
         if _is_num(v):
-            return (not math.isnan(v)) and lo <= v <= hi
+            return (not (isinstance(v, float) and math.isnan(v))) and lo <= v <= hi
         if isinstance(v, str):
             try:
                 x = float(v)
@@ -257,8 +257,8 @@ ob_chains.wants_all_cores = True
 # ---- document level ------------------------------------------------------------------------------------------------
 
 DOC_FIELDS = [
-    ("NAME", '["n"∧REQ]', [("NAME::alpha", True), ('NAME::""', False), (None, False)]),
-    ("STATUS", '["ACTIVE"∧REQ∧ENUM[DRAFT,ACTIVE,DEPRECATED]]', [("STATUS::ACTIVE", True), ("STATUS::DR", True), ("STATUS::D", False), ("STATUS::NOPE", False), (None, False)]),
+    ("NAME", '["n"∧REQ]', [("NAME::alpha", True), ('NAME::""', False), ("NAME::null", False), (None, False)]),
+    ("STATUS", '["ACTIVE"∧REQ∧ENUM[DRAFT,ACTIVE,DEPRECATED]]', [("STATUS::ACTIVE", True), ("STATUS::DR", True), ("STATUS::D", False), ("STATUS::NOPE", False), ("STATUS::null", False), (None, False)]),
     ("COUNT", '[5∧OPT∧TYPE[NUMBER]∧RANGE[1,10]]', [("COUNT::5", True), ("COUNT::11", False), ('COUNT::"5"', False), ("COUNT::true", False), (None, True)]),
     ("WHEN", '["2024-01-15"∧OPT∧DATE]', [('WHEN::"2024-01-15"', True), ('WHEN::"2024-02-30"', False), (None, True)]),
 ]
